@@ -358,7 +358,7 @@ func genC19(seed uint64, idx int) *plan19 {
 		p.tail(ev, allIdx(len(p.u.objs)))
 		return p
 	case 3: // more objects than one listing page
-		if idx%16 == 3 {
+		if idx%32 == 3 {
 			p.note = "scripted: source shard with more than one listing page"
 			p.n, p.thr = 2, 0
 			nobj := 2*engine.VerifEvacuateBatchSize() + 30
@@ -386,7 +386,25 @@ func genC19(seed uint64, idx int) *plan19 {
 	}
 	p.n = []int{2, 2, 3, 3, 3, 4, 4}[r.intn(7)]
 	p.thr = []int{0, 0, 0, 1, 2}[r.intn(5)]
-	p.u = newUniverse(r, 4, 2, 2, 3, maxEpoch)
+	// scripted tails of otherwise generated histories:
+	// 5: a source without metabase; 6: no shard accepts anything while errors are ignored;
+	// 7: many EC parts (placed by the parent's ID), healthy shards
+	refuseAll := variant == 6
+	ecHeavy := variant == 7
+	switch {
+	case variant == 5:
+		p.note = "scripted tail: a source shard without metabase"
+	case refuseAll:
+		p.note = "scripted tail: every target refuses, ignoreErrors set"
+	case ecHeavy:
+		p.note = "scripted tail: many EC parts, healthy shards"
+	}
+	if ecHeavy {
+		p.n, p.thr = 4, 0
+		p.u = newUniverse(r, 3, 5, 1, 2, maxEpoch)
+	} else {
+		p.u = newUniverse(r, 4, 2, 2, 3, maxEpoch)
+	}
 	nobj := len(p.u.objs)
 	nsh := p.n
 	epoch := 0
@@ -422,13 +440,13 @@ func genC19(seed uint64, idx int) *plan19 {
 			p.ops = append(p.ops, ab("del", related(), r.intn(2), 0))
 		case w < 63:
 			p.ops = append(p.ops, ab("drop", related(), 0, 0))
-		case w < 78:
+		case w < 78 && !ecHeavy:
 			m := []int{0, 0, 0, 1, 1, 1, 3, 2}[r.intn(8)]
 			p.ops = append(p.ops, ab("mode", r.intn(nsh), m, r.intn(2)))
-		case w < 86:
+		case w < 86 && !ecHeavy:
 			f := r.intn(4)
 			p.ops = append(p.ops, ab("fault", r.intn(nsh), f&1, f>>1))
-		case w < 92:
+		case w < 92 && !ecHeavy:
 			if epoch < maxEpoch+1 {
 				epoch += 1 + r.intn(2)
 			}
@@ -463,10 +481,25 @@ func genC19(seed uint64, idx int) *plan19 {
 		j := r.intn(i + 1)
 		srcs[i], srcs[j] = srcs[j], srcs[i]
 	}
+	if refuseAll {
+		// make sure the sources hold objects nobody else has
+		for s := 0; s < nsh; s++ {
+			m := 1
+			if isSrc[s] {
+				m = 0
+			}
+			p.ops = append(p.ops, ab("mode", s, m, 1), ab("fault", s, 0, 0))
+		}
+		for k := 0; k < 4; k++ {
+			p.ops = append(p.ops, ab("put", r.intn(6), 0, 0))
+		}
+	}
 	for s := 0; s < nsh; s++ {
 		if isSrc[s] {
 			m := 1
 			switch {
+			case variant == 5 && s == srcs[0]:
+				m = 3 // scripted: a source shard without metabase
 			case r.coin(1, 14):
 				m = 3 // no metabase
 			case r.coin(1, 25):
@@ -480,7 +513,6 @@ func genC19(seed uint64, idx int) *plan19 {
 			p.ops = append(p.ops, ab("fault", s, f, 0))
 		} else {
 			m := []int{0, 0, 0, 0, 0, 1, 1, 2, 3}[r.intn(9)]
-			p.ops = append(p.ops, ab("mode", s, m, r.intn(2)))
 			fr, fw := 0, 0
 			if r.coin(1, 10) {
 				fr = 1
@@ -488,6 +520,18 @@ func genC19(seed uint64, idx int) *plan19 {
 			if r.coin(1, 4) {
 				fw = 1
 			}
+			switch {
+			case refuseAll:
+				if r.coin(1, 2) {
+					m, fw = 1, 0
+				} else {
+					m, fw = 0, 1
+				}
+				fr = 0
+			case ecHeavy:
+				m, fr, fw = 0, 0, 0
+			}
+			p.ops = append(p.ops, ab("mode", s, m, r.intn(2)))
 			p.ops = append(p.ops, ab("fault", s, fr, fw))
 		}
 	}
@@ -511,6 +555,12 @@ func genC19(seed uint64, idx int) *plan19 {
 				ev.acc = append(ev.acc, i)
 			}
 		}
+	}
+	if refuseAll {
+		ev.ign, ev.fh, ev.acc = true, false, nil
+	}
+	if ecHeavy {
+		ev.ign, ev.fh, ev.acc = false, false, nil
 	}
 	p.tail(ev, allIdx(nobj))
 	return p
